@@ -131,10 +131,17 @@ static int xmi2mid_ParseXMI(struct xmi2mid_xmi_ctx *ctx);
 static int xmi2mid_ExtractTracks(struct xmi2mid_xmi_ctx *ctx, int32_t dstTrackNumber);
 static uint32_t xmi2mid_ExtractTracksFromXmi(struct xmi2mid_xmi_ctx *ctx);
 
+/* Bytes left in the source. Reads beyond the source give zeros and stop at its end */
+static size_t xmi2mid_srcleft(struct xmi2mid_xmi_ctx *ctx)
+{
+    return (ctx->src_ptr < ctx->src_end) ? (size_t)(ctx->src_end - ctx->src_ptr) : 0;
+}
+
 static uint32_t xmi2mid_read1(struct xmi2mid_xmi_ctx *ctx)
 {
     uint8_t b0;
-    assert(ctx->src_ptr + 1 < ctx->src_end);
+    if (xmi2mid_srcleft(ctx) < 1)
+        return (0);
     b0 = *ctx->src_ptr++;
     return (b0);
 }
@@ -142,39 +149,39 @@ static uint32_t xmi2mid_read1(struct xmi2mid_xmi_ctx *ctx)
 static uint32_t xmi2mid_read2(struct xmi2mid_xmi_ctx *ctx)
 {
     uint8_t b0, b1;
-    assert(ctx->src_ptr + 2 < ctx->src_end);
-    b0 = *ctx->src_ptr++;
-    b1 = *ctx->src_ptr++;
+    b0 = (uint8_t)xmi2mid_read1(ctx);
+    b1 = (uint8_t)xmi2mid_read1(ctx);
     return (b0 + ((uint32_t)b1 << 8));
 }
 
 static uint32_t xmi2mid_read4(struct xmi2mid_xmi_ctx *ctx)
 {
     uint8_t b0, b1, b2, b3;
-    assert(ctx->src_ptr + 4 < ctx->src_end);
-    b3 = *ctx->src_ptr++;
-    b2 = *ctx->src_ptr++;
-    b1 = *ctx->src_ptr++;
-    b0 = *ctx->src_ptr++;
+    b3 = (uint8_t)xmi2mid_read1(ctx);
+    b2 = (uint8_t)xmi2mid_read1(ctx);
+    b1 = (uint8_t)xmi2mid_read1(ctx);
+    b0 = (uint8_t)xmi2mid_read1(ctx);
     return (b0 + ((uint32_t)b1<<8) + ((uint32_t)b2<<16) + ((uint32_t)b3<<24));
 }
 
 static uint32_t xmi2mid_read4le(struct xmi2mid_xmi_ctx *ctx)
 {
     uint8_t b0, b1, b2, b3;
-    assert(ctx->src_ptr + 4 < ctx->src_end);
-    b3 = *ctx->src_ptr++;
-    b2 = *ctx->src_ptr++;
-    b1 = *ctx->src_ptr++;
-    b0 = *ctx->src_ptr++;
+    b3 = (uint8_t)xmi2mid_read1(ctx);
+    b2 = (uint8_t)xmi2mid_read1(ctx);
+    b1 = (uint8_t)xmi2mid_read1(ctx);
+    b0 = (uint8_t)xmi2mid_read1(ctx);
     return (b3 + ((uint32_t)b2<<8) + ((uint32_t)b1<<16) + ((uint32_t)b0<<24));
 }
 
 static void xmi2mid_copy(struct xmi2mid_xmi_ctx *ctx, char *b, uint32_t len)
 {
-    assert(ctx->src_ptr + len < ctx->src_end);
-    memcpy(b, ctx->src_ptr, len);
-    ctx->src_ptr += len;
+    size_t have = xmi2mid_srcleft(ctx);
+    if (have > len)
+        have = len;
+    memcpy(b, ctx->src_ptr, have);
+    memset(b + have, 0, len - have);
+    ctx->src_ptr += have;
 }
 
 #define DST_CHUNK 8192
@@ -219,6 +226,8 @@ static void xmi2mid_write4(struct xmi2mid_xmi_ctx *ctx, uint32_t val)
 }
 
 static void xmi2mid_seeksrc(struct xmi2mid_xmi_ctx *ctx, uint32_t pos) {
+    if (pos > ctx->srcsize)
+        pos = ctx->srcsize;
     ctx->src_ptr = ctx->src + pos;
 }
 
@@ -229,8 +238,18 @@ static void xmi2mid_seekdst(struct xmi2mid_xmi_ctx *ctx, uint32_t pos) {
     ctx->dstrem = ctx->dstsize - pos;
 }
 
+/* Skips forward (a chunk length can need all 32 bits), never beyond the end of the source */
+static void xmi2mid_skipchunk(struct xmi2mid_xmi_ctx *ctx, uint32_t len) {
+    size_t left = xmi2mid_srcleft(ctx);
+    ctx->src_ptr += (len < left) ? len : left;
+}
 static void xmi2mid_skipsrc(struct xmi2mid_xmi_ctx *ctx, int32_t pos) {
-    ctx->src_ptr += pos;
+    if (pos >= 0)
+        xmi2mid_skipchunk(ctx, (uint32_t)pos);
+    else if ((size_t)(ctx->src_ptr - ctx->src) >= (size_t)(-(pos + 1)) + 1)
+        ctx->src_ptr += pos;
+    else
+        ctx->src_ptr = ctx->src;
 }
 
 static void xmi2mid_skipdst(struct xmi2mid_xmi_ctx *ctx, int32_t pos) {
@@ -898,6 +917,9 @@ static int32_t xmi2mid_ConvertSystemMessage(struct xmi2mid_xmi_ctx *ctx, const i
 
     i += xmi2mid_GetVLQ(ctx, &ctx->current->len);
 
+    if (ctx->current->len > xmi2mid_srcleft(ctx)) /* the message can't be longer than the rest of the file */
+        ctx->current->len = (uint32_t)xmi2mid_srcleft(ctx);
+
     if (!ctx->current->len)
         return (i);
 
@@ -996,7 +1018,7 @@ static int32_t xmi2mid_ConvertFiletoList(struct xmi2mid_xmi_ctx *ctx, const xmi2
                 } else if (dat == 0x51 && tempo_set) /* Skip any other tempo changes */
                 {
                     xmi2mid_GetVLQ(ctx, &dat);
-                    xmi2mid_skipsrc(ctx, dat);
+                    xmi2mid_skipchunk(ctx, dat);
                     break;
                 }
 
@@ -1156,7 +1178,7 @@ static uint32_t xmi2mid_ExtractTracksFromXmi(struct xmi2mid_xmi_ctx *ctx) {
         }
 
         if (memcmp(buf, "EVNT", 4)) {
-            xmi2mid_skipsrc(ctx, (len + 1) & ~1);
+            xmi2mid_skipchunk(ctx, (len + 1) & ~1);
             continue;
         }
 
@@ -1255,7 +1277,7 @@ badfile:    /*_WM_GLOBAL_ERROR(__FUNCTION__, __LINE__, WM_ERR_CORUPT, "(too shor
 
                 if (memcmp(buf, "INFO", 4)) {
                     /* Must align */
-                    xmi2mid_skipsrc(ctx, (chunk_len + 1) & ~1);
+                    xmi2mid_skipchunk(ctx, (chunk_len + 1) & ~1);
                     i += (chunk_len + 1) & ~1;
                     continue;
                 }
